@@ -385,6 +385,12 @@ func init() {
 			return v
 		}
 	}
+	for _, n := range []string{"math/rand.Float32", "math/rand.Float64", "math/rand/v2.Float32", "math/rand/v2.Float64"} {
+		reg(n, func(fr *frame, fn *ssa.Function, args []value) value {
+			fr.in.noteAssumption("math/rand.Float32/Float64 return 0 (one value of [0,1); weighted sampling then follows map iteration order)")
+			return float64(0)
+		})
+	}
 	reg("math/rand.Intn", randIn(64))
 	reg("math/rand.Int63n", randIn(64))
 	reg("math/rand.Int31n", randIn(32))
